@@ -16,7 +16,9 @@ RULE = ("(a) Hypothesis: 1-3 root models from C01's sample generator (sibling-ob
         "exact / percent / number on the original key sets, closed by union-find. Oracle: replacement list == components of size "
         ">= 2; merged key set == union of members' key sets; singleton models are the same objects with unchanged field types "
         "modulo pointer retargeting; merged members unregistered, merged model registered; every pointer reachable from a "
-        "registered model and every pointer in pointers/child_pointers targets a registered model. (b) all undirected similarity "
+        "registered model and every pointer in pointers/child_pointers targets a registered model, child_pointers complete; then "
+        "the first root's samples are processed again into the same registry and merged a second time (incremental use): "
+        "pointer integrity again and compose_models_flat must not raise. (b) all undirected similarity "
         "graphs on 5 (quick: plus a seeded sample on 6) / 6 (thorough: all 32768) root models through a table-driven comparator, "
         "and all 64 graphs x 24 registration orders on 4 models. Non-trivial: the reference relation has >= 1 edge and is not "
         "complete. distinct = canonical JSON of the case.")
@@ -111,6 +113,28 @@ class _Id:
         self.index = ident
 
 
+def pointer_integrity(r, reg, info, prefix=""):
+    registered = {id(m) for m in reg.models}
+    for m in reg.models:
+        for t in m.type.values():
+            for p in pl.iter_ptrs(t):
+                if id(p.type) not in registered:
+                    r.fail(prefix + "dangling-pointer-in-field", f"{m} -> {p.type}\n{info}")
+        for p in m.pointers:
+            if p.type is not m:
+                r.fail(prefix + "pointers-set-inconsistent", f"{m}: {p} targets {p.type}\n{info}")
+            if p.parent is not None and id(p.parent) not in registered:
+                r.fail(prefix + "pointer-parent-unregistered", f"{m}: parent {p.parent}\n{info}")
+        for p in m.pointers:
+            if p.parent is not None and p not in p.parent.child_pointers:
+                r.fail(prefix + "child-pointers-incomplete", f"{p.parent} does not list its pointer to {m} ({p.parent_field_name})\n{info}")
+        for p in m.child_pointers:
+            if id(p.type) not in registered:
+                r.fail(prefix + "child-pointer-target-unregistered", f"{m}: {p.type}\n{info}")
+            if p.parent is not m:
+                r.fail(prefix + "child-pointers-set-inconsistent", f"{m}: {p.parent}\n{info}")
+
+
 def verify_merge(r, reg, gen_, models_before, edge, detail_prefix=""):
     """run merge_models and compare with the reference components. models_before: list of ModelMeta (registered)."""
     n = len(models_before)
@@ -195,21 +219,7 @@ def verify_merge(r, reg, gen_, models_before, edge, detail_prefix=""):
             if tgt is not None and p.type is not tgt:
                 r.fail("pointer-not-retargeted", f"pointer of {m} now targets {p.type}, expected {tgt}\n{info}")
                 break
-    for m in reg.models:
-        for t in m.type.values():
-            for p in pl.iter_ptrs(t):
-                if id(p.type) not in registered:
-                    r.fail("dangling-pointer-in-field", f"{m} -> {p.type}\n{info}")
-        for p in m.pointers:
-            if p.type is not m:
-                r.fail("pointers-set-inconsistent", f"{m}: {p} targets {p.type}\n{info}")
-            if p.parent is not None and id(p.parent) not in registered:
-                r.fail("pointer-parent-unregistered", f"{m}: parent {p.parent}\n{info}")
-        for p in m.child_pointers:
-            if id(p.type) not in registered:
-                r.fail("child-pointer-target-unregistered", f"{m}: {p.type}\n{info}")
-            if p.parent is not m:
-                r.fail("child-pointers-set-inconsistent", f"{m}: {p.parent}\n{info}")
+    pointer_integrity(r, reg, info)
     return comps
 
 
@@ -286,6 +296,16 @@ def check_data(case):
     if any(not k for k in keysets):
         r.label("empty-model")
     comps = verify_merge(r, b.reg, b.gen, models, lambda i, j: (i, j) in edges)
+    if comps is not None and not r.viol:
+        # second stage: more data for the same registry, merged again (incremental use); only integrity is claimed here
+        def again():
+            b.reg.process_meta_data(b.gen.generate(*roots[0]), model_name="Again")
+            b.reg.merge_models(generator=b.gen)
+        ok2, _ = owned(r, "second-merge", again)
+        if ok2:
+            info2 = "after a second merge_models() call on the same registry:\n" + "\n".join(irx.describe(m) for m in b.reg.models)
+            pointer_integrity(r, b.reg, info2, prefix="second-merge:")
+            owned(r, "second-merge:compose", pl.structure, b.reg, False)
     if comps is not None:
         mx = max(len(c) for c in comps)
         if mx >= 3:
